@@ -236,6 +236,9 @@ func writeReplay(prop, sub string, c any, errText string) string {
 	if err != nil {
 		b = []byte(`null`)
 	}
+	if len(errText) > 1200 {
+		errText = errText[:1200] + " …"
+	}
 	rf := replayFile{Prop: prop, Sub: sub, Error: errText, Case: b}
 	out, _ := json.MarshalIndent(rf, "", " ")
 	name := fmt.Sprintf("%s-%s-%016x.json", prop, sanitize(sub), hash64(sub, b))
